@@ -1,0 +1,58 @@
+//go:build verif
+
+// Export shims for the verification harness under /verif (build tag "verif" only), property C10.
+package ambient
+
+import (
+	meshconfig "istio.io/api/mesh/v1alpha1"
+	securityclient "istio.io/client-go/pkg/apis/security/v1"
+	"istio.io/istio/pkg/kube/krt"
+	"istio.io/istio/pkg/workloadapi/security"
+)
+
+// VerifConvertPeerAuthentication exposes convertPeerAuthentication.
+func VerifConvertPeerAuthentication(rootNamespace string, cfg, nsCfg, rootCfg *securityclient.PeerAuthentication) *security.Authorization {
+	return convertPeerAuthentication(rootNamespace, cfg, nsCfg, rootCfg)
+}
+
+// VerifConvertedSelectorPeerAuthentications exposes convertedSelectorPeerAuthentications.
+func VerifConvertedSelectorPeerAuthentications(rootNamespace string, configs []*securityclient.PeerAuthentication) []string {
+	return convertedSelectorPeerAuthentications(rootNamespace, configs)
+}
+
+// VerifGetOldestPeerAuthn exposes getOldestPeerAuthn.
+func VerifGetOldestPeerAuthn(policies []*securityclient.PeerAuthentication) *securityclient.PeerAuthentication {
+	return getOldestPeerAuthn(policies)
+}
+
+// VerifStaticStrictPolicyName exposes the name of the static STRICT policy.
+func VerifStaticStrictPolicyName() string { return staticStrictPolicyName }
+
+// VerifAmbientPeerAuth runs the real policy collections (PolicyCollections: PeerAuthByNamespace index, oldest
+// selection, convertPeerAuthentication, static strict default policy) and the real workload attachment
+// (buildWorkloadPolicies: fetchPeerAuthentications + convertedSelectorPeerAuthentications) over static krt
+// collections. It returns the policy keys attached to the workload and every policy sent to node proxies.
+func VerifAmbientPeerAuth(rootNamespace string, pas []*securityclient.PeerAuthentication,
+	workloadNamespace string, workloadLabels map[string]string,
+) (attached []string, policies []*security.Authorization) {
+	stop := make(chan struct{})
+	defer close(stop)
+	opts := krt.NewOptionsBuilder(stop, "verif-c10", nil)
+	peerAuths := krt.NewStaticCollection[*securityclient.PeerAuthentication](nil, pas, opts.WithName("PeerAuths")...)
+	authz := krt.NewStaticCollection[*securityclient.AuthorizationPolicy](nil, nil, opts.WithName("Authz")...)
+	waypoints := krt.NewStaticCollection[Waypoint](nil, nil, opts.WithName("Waypoints")...)
+	mc := &MeshConfig{MeshConfig: &meshconfig.MeshConfig{RootNamespace: rootNamespace}}
+	meshCfg := krt.NewStatic(mc, true, opts.WithName("MeshConfig")...)
+	authzOnly, all := PolicyCollections(authz, peerAuths, meshCfg, waypoints, opts, FeatureFlags{})
+	all.WaitUntilSynced(stop)
+	authzOnly.WaitUntilSynced(stop)
+	idx := krt.NewNamespaceIndex(peerAuths)
+	// same wiring as ambientindex.go: workloads see the AuthorizationPolicy-derived collection only
+	attached = buildWorkloadPolicies(krt.TestingDummyContext{}, authzOnly, idx, mc, workloadLabels, workloadNamespace)
+	for _, p := range all.List() {
+		if p.Authorization != nil {
+			policies = append(policies, p.Authorization)
+		}
+	}
+	return attached, policies
+}
